@@ -351,7 +351,7 @@ class Simulation:
                 continue
             if a.blocked_on is not None and not self.aborting:
                 holder = self.locks.get(a.blocked_on)
-                if holder is not None and holder != a.id:
+                if holder is not None:
                     continue
                 a.blocked_on = None
             out.append(a)
@@ -508,15 +508,11 @@ class Simulation:
                 self._drop_fd(b, fd)
 
     def _drop_fd(self, a: Actor, fd: int):
-        info = a.fds.pop(fd, None)
+        a.fds.pop(fd, None)
         self.fdinfo.pop(fd, None)
-        if info is not None:
-            for ino, holder in list(self.locks.items()):
-                if holder == a.id and self._lock_fds(a, ino) == 0:
-                    del self.locks[ino]
-
-    def _lock_fds(self, a: Actor, ino) -> int:
-        return sum(1 for i in a.fds.values() if i.get("locked") == ino)
+        for ino, holder in list(self.locks.items()):
+            if holder == (a.id, fd):
+                del self.locks[ino]
 
     # ------------------------------------------------------------------ syscalls
     def abspath(self, p) -> str:
@@ -726,6 +722,7 @@ class Simulation:
         s["dirty"] = True
 
     # ----------------------------------------------------------------- flock seam
+    # A lock belongs to an open file description: self.locks[inode] = (actor id, fd).
     def flock(self, a: Actor, fd, operation):
         import fcntl
         if fd not in a.fds:
@@ -734,40 +731,43 @@ class Simulation:
             return _real["flock"](fd, operation)
         info = a.fds[fd]
         ino = info["ino"]
-        op = Op(a.id, a.op_count, "flock", info["path"], None, fd, operation)
+        op = Op(a.id, a.op_count, "flock", info["path"], None, fd, "UN" if operation & fcntl.LOCK_UN else "EX")
         a.op_count += 1
+        me = (a.id, fd)
         if operation & fcntl.LOCK_UN:
             kind, en = self.yield_point(a, op)
-            if kind in ("kill", "powerloss"):
-                self.crash_actor(a, op, kind)
-                raise SimKilled()
-            if kind == "interrupt":
-                op.outcome = "interrupt"
-                raise SimInterrupt("interrupt at flock")
+            self._lock_directive(a, op, kind)
             info.pop("locked", None)
-            if self.locks.get(ino) == a.id and self._lock_fds(a, ino) == 0:
+            if self.locks.get(ino) == me:
                 del self.locks[ino]
             _real["flock"](fd, operation)
             op.outcome = "ok"
             return None
-        # acquire (exclusive and shared are both modelled as exclusive: the code only uses LOCK_EX)
         nonblocking = bool(operation & fcntl.LOCK_NB)
         while True:
             holder = self.locks.get(ino)
-            if holder is None or holder == a.id:
-                break
+            if holder is None or holder == me:
+                kind, en = self.yield_point(a, op)
+                self._lock_directive(a, op, kind)
+                holder = self.locks.get(ino)
+                if holder is None or holder == me:
+                    break
+                continue  # somebody took it while we were parked at the yield point
             if nonblocking:
                 kind, en = self.yield_point(a, op)
+                self._lock_directive(a, op, kind)
                 op.outcome = "EWOULDBLOCK"
                 raise BlockingIOError(_errno.EWOULDBLOCK, "Resource temporarily unavailable")
             self.probes["flock_blocked"] += 1
             a.blocked_on = ino
-            if len(self.actors) == 1:
-                raise HarnessError("single actor blocked on a lock nobody holds")
-            # park until runnable again
+            if len(self.actors) == 1 or holder[0] == a.id:
+                # blocked on a lock held by another descriptor of the same process: nobody can ever release it
+                self.deadlock = True
+                self.aborting = self.aborting or "deadlock: process blocked on a lock it holds through another descriptor"
+                a.dead = True
+                raise SimKilled()
             nxt = self._pick(a)
             if nxt is a:
-                # deadlock resolution picked us for abort
                 a.dead = True
                 raise SimKilled()
             nxt.sem.release()
@@ -775,22 +775,26 @@ class Simulation:
             if self.aborting or a.dead:
                 a.dead = True
                 raise SimKilled()
-        kind, en = self.yield_point(a, op)
-        if kind in ("kill", "powerloss"):
-            self.crash_actor(a, op, kind)
-            raise SimKilled()
-        if kind == "interrupt":
-            op.outcome = "interrupt"
-            raise SimInterrupt("interrupt at flock")
-        holder = self.locks.get(ino)
-        if holder is not None and holder != a.id:
-            # somebody took it while we were parked at the yield point: go round again
-            return self.flock(a, fd, operation)
-        self.locks[ino] = a.id
+        self.locks[ino] = me
         info["locked"] = ino
         _real["flock"](fd, operation | fcntl.LOCK_NB)
         op.outcome = "ok"
         return None
+
+    def _lock_directive(self, a, op, kind):
+        if self.before_op is not None:
+            with passthrough():
+                self.before_op(self, a, op, kind)
+        if kind in ("kill", "powerloss"):
+            self.crash_actor(a, op, kind)
+            if self.after_op is not None:
+                with passthrough():
+                    self.after_op(self, a, op)
+            raise SimKilled()
+        if kind == "interrupt":
+            op.outcome = "interrupt"
+            self.crash_op = op
+            raise SimInterrupt("interrupt at flock")
 
     # ------------------------------------------------------------------- logging
     def event_log(self):
